@@ -10,7 +10,7 @@ from pathlib import Path
 import common as C
 
 PROP = "C07"
-MODULES = ["ZorgVerif.Props.C07"]
+MODULES = ["ZorgVerif.Props.C07", "ZorgVerif.Props.C07Lex"]
 
 ALNUM = "0123456789ABCDEFGHIJKLMNOPQRSTUVWXYZabcdefghijklmnopqrstuvwxyz"
 
@@ -174,6 +174,14 @@ def body(ctx: C.Ctx, proof: C.ProofStatus) -> C.Result:
                     C.Failure("allocation sequence: model and ZIDManager differ", {**case, "impl": outs, "model": m.get("out"), "impl_final": final, "model_final": mfinal}, "correspondence")
                 )
                 break
+
+    # ---- 2b. token-stream correspondence of the generated DFAs with the real lexers --------------
+    import lexcheck as LC
+
+    for which in ("file", "query"):
+        texts, nreps = LC.standard_streams(which, rng, ctx.scale(4000, 100000), 2 if ctx.tier == "quick" else 3)
+        LC.check_texts(which, texts, res, "std", use_model=use_model)
+        res.count(f"lex_{which}_classes", nreps)
 
     # ---- 3. allocated ZIDs are single ZID tokens of both lexers and recognised by the compiler
     from zorg.grammar.zorg_file.ZorgFileLexer import ZorgFileLexer
